@@ -10,16 +10,16 @@ import (
 
 // Operation kinds (call shapes of the Scalar interface).
 const (
-	Mon  = iota // r.Op(a)
-	Dy          // r.Op(a, b)
-	DyT         // r.Op(a, b, tmp)          LogAdd LogSub
-	MonT        // r.Op(a, tmp)             Sigmoid
-	ParK        // r.Op(a, k int)           Mlgamma
-	ParF        // r.Op(p float64, a)       GammaP BesselI LogBesselI
-	RedV        // r.Op(vector)             Vmean Vnorm
-	RedVV       // r.Op(vector, vector)     VdotV
-	RedM        // r.Op(matrix)             Mnorm Mtrace
-	RedSM       // r.Op(vector, alpha, tmp) SmoothMax LogSmoothMax
+	Mon   = iota // r.Op(a)
+	Dy           // r.Op(a, b)
+	DyT          // r.Op(a, b, tmp)          LogAdd LogSub
+	MonT         // r.Op(a, tmp)             Sigmoid
+	ParK         // r.Op(a, k int)           Mlgamma
+	ParF         // r.Op(p float64, a)       GammaP BesselI LogBesselI
+	RedV         // r.Op(vector)             Vmean Vnorm
+	RedVV        // r.Op(vector, vector)     VdotV
+	RedM         // r.Op(matrix)             Mnorm Mtrace
+	RedSM        // r.Op(vector, alpha, tmp) SmoothMax LogSmoothMax
 )
 
 // Args is one operand tuple of an operation.
@@ -266,8 +266,10 @@ var Ops = []Op{
 			return true
 		}},
 	{Name: "Vmean", Kind: RedV, IntJudged: "ring",
-		Gen:  func(r *prng.Rand) Args { return Args{X: vec(r, r.Range(1, 8), func() float64 { return velem(r) })} },
-		Grid: func(r *prng.Rand) Args { return Args{X: vec(r, r.Range(1, 8), func() float64 { return ri(r, -11, 11) })} }, Ok: always},
+		Gen: func(r *prng.Rand) Args { return Args{X: vec(r, r.Range(1, 8), func() float64 { return velem(r) })} },
+		Grid: func(r *prng.Rand) Args {
+			return Args{X: vec(r, r.Range(1, 8), func() float64 { return ri(r, -11, 11) })}
+		}, Ok: always},
 	{Name: "Vnorm", Kind: RedV,
 		Gen:  func(r *prng.Rand) Args { return Args{X: vec(r, r.Range(1, 8), func() float64 { return velem(r) })} },
 		Grid: func(r *prng.Rand) Args { return Args{X: vec(r, r.Range(1, 8), func() float64 { return ri(r, -6, 6) })} }, Ok: always},
